@@ -165,6 +165,22 @@ static void op_defcrystal(uint32_t j, rec_t *r, xrl_error **e) {
     if (nuser < XDRV_MAXUSERCRYSTAL) { r->v[0] = 1000 + nuser; user_crystal[nuser++] = c; } else r->flags |= F_AUX;
     trk_on = off;
 }
+/* the same, but the crystal goes through the public path: Crystal_AddCrystal into a user array (which must recompute the volume), then
+ * Crystal_GetCrystal hands out the copy that the later calls use */
+static void op_addcrystal_def(uint32_t j, rec_t *r, xrl_error **e) {
+    static Crystal_Array *arr = NULL; int off = trk_on; trk_on = 0;
+    const char *s = S(0); char name[256]; int n = 0, pos = 0;
+    Crystal_Struct c; memset(&c, 0, sizeof c);
+    if (!arr) arr = Crystal_ArrayInit(2, NULL);
+    if (!arr || sscanf(s, "%255s %lf %lf %lf %lf %lf %lf %lf %d%n", name, &c.a, &c.b, &c.c, &c.alpha, &c.beta, &c.gamma, &c.volume, &n, &pos) != 9) { r->flags |= F_AUX; trk_on = off; return; }
+    c.name = name; c.n_atom = n; c.atom = calloc(n > 0 ? n : 1, sizeof *c.atom);
+    for (int i = 0; i < n; i++) { int q = 0; if (sscanf(s + pos, "%d %lf %lf %lf %lf%n", &c.atom[i].Zatom, &c.atom[i].fraction, &c.atom[i].x, &c.atom[i].y, &c.atom[i].z, &q) != 5) { r->flags |= F_AUX; break; } pos += q; }
+    int rv = Crystal_AddCrystal(&c, arr, e);
+    free(c.atom);
+    Crystal_Struct *got = rv ? Crystal_GetCrystal(name, arr, NULL) : NULL;
+    if (got && nuser < XDRV_MAXUSERCRYSTAL) { r->v[0] = 1000 + nuser; r->v[1] = got->volume; user_crystal[nuser++] = got; } else r->flags |= F_AUX;
+    trk_on = off;
+}
 static void op_clearcrystals(uint32_t j, rec_t *r, xrl_error **e) {
     (void)e; (void)j; (void)r; int off = trk_on; trk_on = 0;
     for (int i = 0; i < nuser; i++) { free(user_crystal[i]->name); free(user_crystal[i]->atom); free(user_crystal[i]); }
@@ -357,7 +373,7 @@ const op_t optab[] = {
     { "Atomic_Factors", op_Atomic_Factors }, { "Refractive_Index2", op_Refractive_Index2 },
     { "SF2", op_SF2 }, { "SFP2", op_SFP2 }, { "Crystal_GetCrystal", op_Crystal_GetCrystal },
     { "Crystal_MakeCopy", op_Crystal_MakeCopy }, { "crystal_dump", op_crystal_dump },
-    { "defcrystal", op_defcrystal }, { "clearcrystals", op_clearcrystals },
+    { "defcrystal", op_defcrystal }, { "addcrystal_def", op_addcrystal_def }, { "clearcrystals", op_clearcrystals },
     { "SymbolToAtomicNumber", op_SymbolToAtomicNumber }, { "locale", op_locale },
     { "statekey", op_statekey }, { "err_hold", op_err_hold }, { "err_digest", op_err_digest }, { "err_release", op_err_release },
     { "XRayInit", op_XRayInit }, { "deprecated", op_deprecated }, { "builtin_insert", op_builtin_insert },
